@@ -432,7 +432,7 @@ class Doc:
         self.marks: List[List[Any]] = []  # [filename, line] pairs that follow edits
         for f in unit.files:
             text, m = render_bp.render_file(f, self.style)
-            ls = text.split("\n")
+            ls = [l[:-1] if l.endswith("\r") else l for l in text.split("\n")]  # (texts() puts the line ends back)
             if ls and ls[-1] == "":
                 ls.pop()
             self.lines[f.filename] = ls
@@ -536,7 +536,8 @@ class Doc:
                 m[1] -= 1
 
     def texts(self) -> Dict[str, str]:
-        return {k: "\n".join(v) + ("\n" if self.style.trailing_newline else "") for k, v in self.lines.items()}
+        eol = "\r\n" if self.style.crlf else "\n"
+        return {k: eol.join(v) + (eol if self.style.trailing_newline else "") for k, v in self.lines.items()}
 
 
 @st.composite
@@ -552,6 +553,7 @@ def styles(draw: Any, lint_clean: bool = False) -> render_bp.Style:
         spicy_comments=draw(st.booleans()),
         trailing_comments=(not lint_clean) and draw(st.booleans()),
         trailing_newline=lint_clean or draw(st.sampled_from([True, True, False])),
+        crlf=draw(st.integers(0, 4)) == 1,
     )
 
 
